@@ -129,6 +129,15 @@ Theorem C14_missing_key_is_none :
     get_key F k j = None -> from_json F F32 f2z narrow (TOption t) (or_null F (get_key F k j)) = Ok RNone.
 Proof. exact missing_key_is_none. Qed.
 
+(* from_json applied to ANY JSON value (not only to the image of to_json) returns a value of the type or TypeError: the generated
+   code has no panic site, `as` casts land inside the integer type, the variant index is in range
+   (ints_ok: every integer type of the declaration has a positive width) *)
+Theorem C14_from_json_total :
+  forall (F F32 : Type) (f2z : F -> Z) (narrow : F -> F32) (t : ty),
+    ints_ok t -> forall j : value F,
+      (exists v, from_json F F32 f2z narrow t j = Ok v /\ has_type F F32 v t) \/ from_json F F32 f2z narrow t j = Err E_TYPE.
+Proof. exact from_json_total. Qed.
+
 (* ---------------- json! ---------------- *)
 
 (* every literal of the JSON literal grammar (any nesting, trailing commas, expressions in every value position, any
@@ -290,6 +299,7 @@ Print Assumptions C14_shape_tuple.
 Print Assumptions C14_shape_enum.
 Print Assumptions C14_shape_scalars.
 Print Assumptions C14_missing_key_is_none.
+Print Assumptions C14_from_json_total.
 Print Assumptions C14_macro_sound.
 Print Assumptions C14_denote_iff_lit.
 Print Assumptions C14_macro_denote.
